@@ -82,7 +82,7 @@ fn main() {
                 "C01" => { props::c01(c, &b); props_enum::run(c, "C01", &b); }
                 "C02" => { props::c02(c, &b); props_enum::run(c, "C02", &b); }
                 "C03" => { props2::c03(c, &b); props_enum::run(c, "C03", &b); }
-                "C04" => { props::c04(c, &b); props_enum::run(c, "C04", &b); }
+                "C04" => { props::c04(c, &b); props::c04_spliced(c, &b); props_enum::run(c, "C04", &b); }
                 "C05" => { props::c05(c, &b); props_enum::run(c, "C05", &b); }
                 "C06" => props::c06(c, &b),
                 "C07" => props::c07(c, &b),
